@@ -28,9 +28,12 @@ def run(tier, seed, replay=None):
     n = 200 if tier == "quick" else 4000
     lines, wd = subfam.run_family(ck, binary, "close", n, seed, strict=True)
     shutil.rmtree(wd, ignore_errors=True)
-    # shutdown with a listener that has never read: its backlog (about 90 notifications, 270 in one run of eight) must not keep
-    # the distributor, and so Close, from finishing
-    more, wd = subfam.run_family(ck, binary, "stall", 16 if tier == "quick" else 96, seed, strict=True)
+    # shutdown with a listener that has never read: its backlog (about 90 notifications, 360 in one run of eight, more than 1100
+    # in one run: no bound of a plausible size holds it) must not keep the distributor, and so Close, from finishing
+    more, wd = subfam.run_family(ck, binary, "stall", 16 if tier == "quick" else 96, seed, strict=True, extra_args=["-stall-max", "1300"])
+    ck.cov["stalled_listener_backlog_max"] = max([sum(1 for e in sc if e["ev"] == "d.event") for sc in subfam.scenarios(more)] or [0])
+    if more and ck.cov["stalled_listener_backlog_max"] <= 1024 and not ck.divergences:
+        raise vlib.Infra("family stall did not build up a backlog of more than 1024 notifications")
     shutil.rmtree(wd, ignore_errors=True)
     ck.cov["close_returns_checked"] = sum(1 for ln in lines if '"env.close.ret"' in ln)
     ck.cov["rule"] = ("seeded random schedules in which one or two concurrent Close calls start at a random point of announce-triggered and explicit syncs, "
